@@ -202,7 +202,7 @@ Definition same_site (u t : urlinfo) : bool :=
   && (negb (str_eqb (u_scheme u) (u_scheme t)) || oint_eqb (u_port u) (u_port t)).
 Definition top_of (L : lib) (u : urlinfo) (r : urlrec) : urlinfo :=
   match r_root r with
-  | Some (_ :: _ as s) => l_parse L s
+  | Some ((_ :: _) as s) => l_parse L s
   | _ => u
   end.
 Definition parent_spec (L : lib) (u : urlinfo) (r : urlrec) : bool :=
